@@ -790,6 +790,10 @@ class Inventory:
             msgs = [a.get('str') for a in t['args'] if a['k'] == 'const' and a.get('str')]
             s = self.site(body, f'{pk}!({msgs[0][:40] if msgs else ""})', t, pk)
             self.record(s, False, '', f'explicit {pk}! is reachable on a feasible path', (), p.conds[:e[6]])
+            if pk == 'assert':
+                # an asserted invariant (assert!, debug_assert!, assert_eq! ...): the failing branch is reachable only if the stated fact can be false,
+                # which the provers could not exclude; unlike a bare panic!/todo! this is a claim of the code, not a refusal to handle a case
+                s.guarded = True
             return
         if called(name, 'Option::unwrap', 'Option::expect', 'Result::unwrap', 'Result::expect'):
             K = self.knowledge(body, p, e)
